@@ -49,7 +49,7 @@ RULE = ("schemas in which two messages reuse a count field with differing defini
 def build(tier):
     L.f8c_asan()
     B.runtime_objs("asan")
-    return {"impl": []}
+    return {"impl": [], "harness": "h_c14"}
 
 
 def schemas(rng, tier):
